@@ -261,6 +261,55 @@ pub fn check_registry(reg: &PortableRegistry, ids: &[u32], seeds: u64, replay: &
     ctx.note("enum variants produced at least once as the top-level example of their enum", direct.min(total));
 }
 
+
+/// "Start from a non-initial state": the registry of the previous state of this worker is overwritten IN PLACE
+/// by the current one (same `&PortableRegistry` address, different content), and every call on it must give
+/// what the call gives on an independently allocated copy. Anything remembered between calls under a key that
+/// does not determine the registry content (an address, an id) shows up here, deterministically.
+pub struct PrevSlot {
+    pub reg: Option<Box<PortableRegistry>>,
+    pub prev_state: Option<Json>,
+}
+pub static PREV: std::sync::Mutex<PrevSlot> = std::sync::Mutex::new(PrevSlot { reg: None, prev_state: None });
+
+pub fn same_address_clause<T: PartialEq + std::fmt::Debug>(
+    prop: &str,
+    state: &Json,
+    reg: &PortableRegistry,
+    seeds: u64,
+    call: &dyn Fn(u32, &PortableRegistry, u64) -> Result<Result<T, String>, String>,
+    ctx: &mut Ctx,
+) {
+    let mut slot = PREV.lock().unwrap_or_else(|e| e.into_inner());
+    let prev_state = slot.prev_state.clone();
+    match &mut slot.reg {
+        Some(b) => **b = reg.clone(),
+        None => slot.reg = Some(Box::new(reg.clone())),
+    }
+    slot.prev_state = Some(state.clone());
+    let here: &PortableRegistry = slot.reg.as_ref().unwrap();
+    for id in 0..reg.types.len() as u32 {
+        for seed in 0..seeds.min(2) {
+            ctx.exec(2);
+            let fresh = call(id, reg, seed);
+            let reused = call(id, here, seed);
+            if fresh != reused {
+                ctx.violation(
+                    format!("{prop}/depends-on-earlier-calls"),
+                    format!(
+                        "id {id} seed {seed}: the call on a registry stored where the previous registry of this process was gives {}, the call on a fresh copy gives {}",
+                        truncate(&format!("{reused:?}"), 160),
+                        truncate(&format!("{fresh:?}"), 160)
+                    ),
+                    json!({"check": format!("{prop}-hist"), "prev": prev_state, "state": state}),
+                    reg.types.len(),
+                );
+                return;
+            }
+        }
+    }
+}
+
 /// worker entry: state = {"prog": Program, "seeds": n} | {"polkadot": [lo, hi], "seeds": n}
 pub fn worker_check(state: &Json, ctx: &mut Ctx) {
     let seeds = state["seeds"].as_u64().unwrap_or(8);
@@ -280,6 +329,14 @@ pub fn worker_check(state: &Json, ctx: &mut Ctx) {
             &ids,
             seeds,
             &|id, seed| json!({"check": "C12", "state": {"prog": serde_json::to_value(&prog).unwrap(), "seeds": seed + 1}, "id": id, "source": src}),
+            ctx,
+        );
+        same_address_clause(
+            "C12",
+            state,
+            &reg,
+            seeds,
+            &|id, r, seed| guarded(|| scale_value_from_seed(id, r, seed).map(|v| v.to_string()).map_err(|e| format!("{e}"))),
             ctx,
         );
     }
@@ -450,6 +507,10 @@ pub fn run(tier: &str, seed: u64) -> i32 {
 
 pub fn replay(v: &Json) -> Result<Vec<Violation>, String> {
     let mut ctx = Ctx::default();
+    if v["check"] == "C12-hist" && !v["prev"].is_null() {
+        // re-establish the history: the previous state first (its findings are not this replay's subject)
+        worker_check(&v["prev"], &mut Ctx::default());
+    }
     worker_check(&v["state"], &mut ctx);
     Ok(ctx.violations)
 }
